@@ -78,6 +78,41 @@ def loop_perm(it: ast.AST, sorters: Dict[str, str], aliases: Dict[str, ast.AST])
     return None
 
 
+def _u(e):
+    return ast.unparse(e) if e is not None else ""
+
+
+# roles of the locals the rules below talk about (sa/normal.py: with_roles)
+C10_ROLES = {
+    "offsets": (
+        ("bcs_s", lambda n, v, st: isinstance(v, ast.Call) and call_name(v) == "bpm_changes_snap"),
+        ("sorter", lambda n, v, st: isinstance(v, ast.Call) and call_name(v) == "argsort" and not v.args and isinstance(st, ast.Assign)),
+        ("snap", lambda n, v, st: isinstance(st, ast.For) and isinstance(st.target, ast.Name) and st.target.id == n and "sorter" in _u(st.iter)),
+        ("bc_i", lambda n, v, st: isinstance(st, ast.AugAssign) and isinstance(st.op, ast.Sub) and isinstance(v, ast.Constant) and v.value == 1),
+        ("bcs", lambda n, v, st: isinstance(v, ast.Subscript) and _u(v.value) == "bcs_s"),
+        ("diff_snap", lambda n, v, st: isinstance(v, ast.BinOp) and isinstance(v.op, ast.Sub) and _u(v.right).endswith(".snap")),
+    ),
+    "from_offset": (
+        ("offset_del", lambda n, v, st: isinstance(st, ast.Assign) and isinstance(v, ast.BinOp) and isinstance(v.op, ast.Sub) and _u(v.right) == "bco.offset"),
+        ("measure", lambda n, v, st: isinstance(v, ast.Call) and call_name(v) == "int" and "measure_length" in _u(v)),
+        ("beat", lambda n, v, st: isinstance(v, ast.Call) and call_name(v) == "snap" and "beat_length" in _u(v)),
+    ),
+    "snap": (
+        ("quo", lambda n, v, st: isinstance(v, ast.BinOp) and isinstance(v.op, ast.FloorDiv) and _u(v.right) == "1"),
+        ("rem", lambda n, v, st: isinstance(v, ast.BinOp) and isinstance(v.op, ast.Mod) and _u(v.right) == "1"),
+        ("ix", lambda n, v, st: isinstance(v, ast.Call) and call_name(v) in ("bisect_left", "bisect", "bisect_right", "searchsorted")),
+        ("left_diff", lambda n, v, st: isinstance(v, ast.BinOp) and isinstance(v.op, ast.Sub) and _u(v.left) == "rem"),
+        ("right_diff", lambda n, v, st: isinstance(v, ast.BinOp) and isinstance(v.op, ast.Sub) and _u(v.right) == "rem"),
+    ),
+}
+
+
+def _rfn(ctx, q: str, **kw):
+    from ..normal import with_roles
+    return with_roles(ctx.M.nfn(q, **kw), C10_ROLES.get(q.rsplit(".", 1)[1], ()))
+
+
+
 def _direct_bisect(fn, rid, key, meth, file) -> Optional[List[R.Inst]]:
     """`for q in QUERIES: i = bisect_*(KEYS, q) - 1; ...; acc.append(..)` and `return np.array(acc)`: query order is kept by
     construction; the segment selection must put a query that EQUALS a change position into the segment that change starts
@@ -498,7 +533,7 @@ def rule_r4(ctx) -> List[R.Inst]:
     if not done:
         insts.append(R.undec(rid, "from_bpm_changes_snap:segment", ff, fs.node.lineno, "consecutive-pair loop not found"))
     # TimingMap.offsets: change[i].offset + (snap - change_snap[i].snap).offset(change_snap[i]) with one index
-    fo = M.nfn(T.TIMINGMAP + ".offsets", subst="alias")
+    fo = _rfn(ctx, T.TIMINGMAP + ".offsets", subst="alias")
     ff = M.mods[fo.mod].rel
     app = [c for c in ast.walk(fo.node) if isinstance(c, ast.Call) and call_name(c) == "append" and c.args]
     diff = [n for n in ast.walk(fo.node) if isinstance(n, ast.Assign) and isinstance(n.value, ast.BinOp) and
@@ -519,7 +554,7 @@ def rule_r4(ctx) -> List[R.Inst]:
     else:
         insts.append(R.undec(rid, "TimingMap.offsets:formula", ff, fo.node.lineno, "offset formula not recognised"))
     # Snap.from_offset shape
-    fr = M.fn(SNAP + ".from_offset")
+    fr = _rfn(ctx, SNAP + ".from_offset")
     ff = M.mods[fr.mod].rel
     body = {unparse(n.targets[0]) if isinstance(n, ast.Assign) else unparse(n.target): n for n in walk_no_nested(fr.node)
             if isinstance(n, (ast.Assign, ast.AugAssign))}
@@ -551,7 +586,7 @@ def rule_r5(ctx) -> List[R.Inst]:
     """nearest-fraction choice in Snapper.snap"""
     M = ctx.M
     rid = "C10.R5"
-    fn = M.fn(SNAPPER + ".snap")
+    fn = _rfn(ctx, SNAPPER + ".snap")
     file = M.mods[fn.mod].rel
     insts = []
     ld = local_defs(fn.node, "left_diff")
